@@ -70,10 +70,14 @@ pub fn listing_json(l: &Listing) -> Value {
 }
 
 pub fn apply<const N: usize>(s: &mut OrSWotSet<N>, op: &Op) -> bool {
-    if op.del {
-        s.delete_with_source(op.src, op.key, op.ts)
-    } else {
-        s.insert_with_source(op.src, op.key, op.ts)
+    // operations through source 0 use the source-less entry points (`insert` / `delete`, what the loader
+    // calls) whenever the stamp's counter is odd, the `_with_source` ones otherwise
+    let plain = op.src == 0 && op.ts.counter() % 2 == 1;
+    match (op.del, plain) {
+        (true, true) => s.delete(op.key, op.ts),
+        (false, true) => s.insert(op.key, op.ts),
+        (true, false) => s.delete_with_source(op.src, op.key, op.ts),
+        (false, false) => s.insert_with_source(op.src, op.key, op.ts),
     }
 }
 
